@@ -2,7 +2,8 @@ package rules
 
 import (
 	"fmt"
-	"go/types"
+	"go/token"
+	"sort"
 	"strings"
 
 	"golang.org/x/tools/go/ssa"
@@ -11,117 +12,315 @@ import (
 	"s2scheck/internal/report"
 )
 
-// checkStateless: the translation / repair code keeps no memory between messages. In the given packages no shipped
-// function (other than package initialisers) stores into a package-level variable, into a map or sync.Map that
-// is package-level or a field of its receiver, or into a field of its receiver at all. A cache keyed by the
-// message's type or content makes the treatment of one message depend on earlier ones ("this type had no search
-// attributes last time", "reuse the legacy message allocated last time").
+// checkStateless: the translation / access-control / repair code keeps no memory between messages that can change
+// what it does. In the given packages every piece of state that a shipped function (other than package
+// initialisers and constructors of fresh values) writes - a package-level variable, a receiver field, a map or
+// sync.Map rooted in one of those - is located, and every read of that state anywhere in the package is examined:
+// the state is harmless only if nothing but logging / metrics depends on what was read (no return value and no
+// other call is data- or control-dependent on it). A cache keyed by the message's type or content ("this type had
+// no search attributes last time", "reuse the legacy message allocated last time", "this method was already
+// refused once") makes the treatment of one message depend on earlier ones.
 func checkStateless(c *Ctx, res *report.Result, rule string, rels []string, exempt map[string]string) {
-	n := 0
-	viol := 0
+	type stateKey struct{ root, kind string } // root: "global:<name>" or "field:<Type>.<field>"
+	rootOf := func(f *ssa.Function, v ssa.Value) string {
+		var recv ssa.Value
+		if f.Signature.Recv() != nil && len(f.Params) > 0 {
+			recv = f.Params[0]
+		}
+		field := ""
+		for i := 0; i < 8 && v != nil; i++ {
+			switch x := v.(type) {
+			case *ssa.Global:
+				return "global:" + x.Name()
+			case *ssa.FieldAddr:
+				field = flow.FieldName(x.X.Type(), x.Field)
+				if nt := namedOf(x.X.Type()); nt != nil {
+					base := flow.Strip(flow.ResolveLoad(x.X))
+					if recv != nil && base == recv {
+						return "field:" + nt.Obj().Name() + "." + field
+					}
+					if _, isAlloc := base.(*ssa.Alloc); isAlloc {
+						return "" // a fresh value under construction
+					}
+					// a field of some other shared object of the package
+					if nt.Obj().Pkg() != nil && f.Package() != nil && nt.Obj().Pkg() == f.Package().Pkg {
+						return "field:" + nt.Obj().Name() + "." + field
+					}
+				}
+				v = x.X
+			case *ssa.UnOp:
+				v = x.X
+			case *ssa.IndexAddr:
+				v = x.X
+			case *ssa.Field:
+				v = x.X
+			default:
+				return ""
+			}
+		}
+		return ""
+	}
+	var pkgs []*ssa.Package
 	for _, rel := range rels {
 		sp, err := c.Prog.SSAPkg(rel)
 		if err != nil {
 			res.Undec(rule, rel, "", err.Error())
 			continue
 		}
-		for _, f := range c.Prog.RepoFuncs() {
-			if f.Package() != sp || !isShippedFunc(f) || f.Name() == "init" || strings.HasPrefix(f.Name(), "init#") || f.Synthetic != "" {
-				continue
+		pkgs = append(pkgs, sp)
+	}
+	inPkgs := func(f *ssa.Function) bool {
+		for _, p := range pkgs {
+			if f.Package() == p {
+				return true
 			}
-			n++
-			var recv ssa.Value
-			if f.Signature.Recv() != nil && len(f.Params) > 0 {
-				recv = f.Params[0]
-			}
-			fromRecv := func(v ssa.Value) bool {
-				for i := 0; i < 6 && v != nil; i++ {
-					if recv != nil && flow.Strip(flow.ResolveLoad(v)) == recv {
-						return true
+		}
+		return false
+	}
+	var funcs []*ssa.Function
+	for _, f := range c.Prog.RepoFuncs() {
+		if inPkgs(f) && isShippedFunc(f) && f.Name() != "init" && !strings.HasPrefix(f.Name(), "init#") && f.Synthetic == "" {
+			funcs = append(funcs, f)
+		}
+	}
+	// 1. writes
+	writes := map[string][]string{} // root -> descriptions
+	writePos := map[string]string{}
+	for _, f := range funcs {
+		for _, b := range f.Blocks {
+			for _, ins := range b.Instrs {
+				root, what := "", ""
+				switch x := ins.(type) {
+				case *ssa.Store:
+					root, what = rootOf(f, x.Addr), "store"
+				case *ssa.MapUpdate:
+					root, what = rootOf(f, x.Map), "map write"
+					if root == "" {
+						root = rootOf(f, flow.ResolveLoad(x.Map))
 					}
-					switch x := v.(type) {
-					case *ssa.FieldAddr:
-						v = x.X
-					case *ssa.UnOp:
-						v = x.X
-					case *ssa.Field:
-						v = x.X
-					default:
-						return false
+				case ssa.CallInstruction:
+					cal := flow.StaticCallee(x.Common())
+					if cal != nil && cal.Signature.Recv() != nil && flow.NamedIs(cal.Signature.Recv().Type(), "sync", "Map") {
+						switch cal.Name() {
+						case "Store", "LoadOrStore", "Swap", "CompareAndSwap", "Delete", "LoadAndDelete", "CompareAndDelete", "Clear":
+							if len(x.Common().Args) > 0 {
+								root, what = rootOf(f, x.Common().Args[0]), "sync.Map."+cal.Name()
+							}
+						}
+					}
+					if bi, isB := x.Common().Value.(*ssa.Builtin); isB && bi.Name() == "delete" && len(x.Common().Args) > 0 {
+						root, what = rootOf(f, x.Common().Args[0]), "map delete"
+						if root == "" {
+							root = rootOf(f, flow.ResolveLoad(x.Common().Args[0]))
+						}
 					}
 				}
-				return false
-			}
-			isGlobalBased := func(v ssa.Value) bool {
-				for i := 0; i < 6 && v != nil; i++ {
-					switch x := v.(type) {
-					case *ssa.Global:
-						return true
-					case *ssa.FieldAddr:
-						v = x.X
-					case *ssa.UnOp:
-						v = x.X
-					case *ssa.IndexAddr:
-						v = x.X
-					default:
-						return false
-					}
+				if root == "" {
+					continue
 				}
-				return false
-			}
-			report1 := func(ins ssa.Instruction, what string) {
-				key := shortFn(f) + ": " + what
-				if why, ok := exempt[key]; ok {
-					res.Hold(rule, "reviewed state: "+key, instrPos(c.Prog, ins), why)
-					return
+				writes[root] = append(writes[root], shortFn(f)+": "+what)
+				if writePos[root] == "" {
+					writePos[root] = instrPos(c.Prog, ins)
 				}
-				viol++
-				res.Viol(rule, "no memory between messages: "+key, instrPos(c.Prog, ins), "the translation/repair code writes state that outlives the message ("+what+"): how a message is treated then depends on the messages seen before it")
 			}
+		}
+	}
+	// 2. reads of written state, and what depends on them
+	isLogCall := func(call ssa.CallInstruction) bool {
+		cc := call.Common()
+		if cc.IsInvoke() {
+			switch cc.Method.Name() {
+			case "Debug", "Info", "Warn", "Error", "DPanic", "Inc", "Add", "Observe", "Set", "With", "WithLabelValues":
+				return true
+			}
+			return false
+		}
+		if cal := flow.StaticCallee(cc); cal != nil {
+			n := cal.String()
+			return strings.Contains(n, "/log") || strings.Contains(n, "tag.") || strings.Contains(n, "prometheus") || strings.Contains(n, "metrics.") || strings.HasPrefix(n, "fmt.")
+		}
+		return false
+	}
+	var roots []string
+	for r := range writes {
+		roots = append(roots, r)
+	}
+	sort.Strings(roots)
+	viol := 0
+	for _, root := range roots {
+		key := root
+		if why, ok := exempt[key]; ok {
+			res.Hold(rule, "reviewed state: "+key, writePos[root], why)
+			continue
+		}
+		influence := ""
+		for _, f := range funcs {
+			// values read from the state in f
+			reads := map[ssa.Value]bool{}
 			for _, b := range f.Blocks {
 				for _, ins := range b.Instrs {
 					switch x := ins.(type) {
-					case *ssa.Store:
-						if isGlobalBased(x.Addr) {
-							report1(ins, "store to a package-level variable")
-						} else if fa, ok := x.Addr.(*ssa.FieldAddr); ok && fromRecv(fa.X) && f.Name() != "init" {
-							// constructors build fresh values (Alloc), methods write their receiver
-							report1(ins, "store to receiver field "+flow.FieldName(fa.X.Type(), fa.Field))
+					case *ssa.UnOp:
+						if x.Op == token.MUL && rootOf(f, x.X) == root {
+							if _, isFA := x.X.(*ssa.FieldAddr); isFA {
+								reads[x] = true
+							}
+							if _, isG := x.X.(*ssa.Global); isG {
+								reads[x] = true
+							}
 						}
-					case *ssa.MapUpdate:
-						if isGlobalBased(x.Map) || isGlobalBased(flow.ResolveLoad(x.Map)) {
-							report1(ins, "write to a package-level map")
-						} else if ld, ok := x.Map.(*ssa.UnOp); ok && fromRecv(ld.X) {
-							report1(ins, "write to a map field of the receiver")
+					case *ssa.Lookup:
+						if rootOf(f, x.X) == root || rootOf(f, flow.ResolveLoad(x.X)) == root {
+							reads[x] = true
+						}
+					case *ssa.Call:
+						cal := flow.StaticCallee(&x.Call)
+						if cal != nil && cal.Signature.Recv() != nil && flow.NamedIs(cal.Signature.Recv().Type(), "sync", "Map") && len(x.Call.Args) > 0 && rootOf(f, x.Call.Args[0]) == root {
+							switch cal.Name() {
+							case "Load", "LoadOrStore", "LoadAndDelete", "Swap", "CompareAndSwap", "Range":
+								reads[x] = true
+							}
+						}
+					}
+				}
+			}
+			if len(reads) == 0 {
+				continue
+			}
+			// transitive data dependants within f
+			dep := map[ssa.Value]bool{}
+			var mark func(v ssa.Value)
+			mark = func(v ssa.Value) {
+				if dep[v] {
+					return
+				}
+				dep[v] = true
+				if refs := v.Referrers(); refs != nil {
+					for _, r := range *refs {
+						if rv, ok := r.(ssa.Value); ok {
+							switch r.(type) {
+							case *ssa.Extract, *ssa.UnOp, *ssa.BinOp, *ssa.Phi, *ssa.TypeAssert, *ssa.ChangeType, *ssa.ChangeInterface, *ssa.MakeInterface, *ssa.Convert, *ssa.Field, *ssa.FieldAddr, *ssa.Index, *ssa.IndexAddr, *ssa.Lookup, *ssa.Slice:
+								mark(rv)
+							}
+						}
+					}
+				}
+			}
+			// the map/field value itself being re-stored is not an influence; start from the reads
+			for v := range reads {
+				// a load that only feeds a map write/lookup of the same state is bookkeeping; still mark: lookups are reads
+				mark(v)
+			}
+			for _, b := range f.Blocks {
+				controlled := false
+				for _, g := range flow.NormGuards(flow.Guards(b)) {
+					if dep[g.Cond] {
+						controlled = true
+					}
+				}
+				for _, ins := range b.Instrs {
+					switch x := ins.(type) {
+					case *ssa.Return:
+						for _, rv := range flow.Ret(x) {
+							if dep[rv] {
+								influence = shortFn(f) + " returns a value read from it (" + instrPos(c.Prog, x) + ")"
+							}
+						}
+						if controlled && b != f.Recover {
+							// a return inside a branch that depends on the state: only harmful if some other path returns differently,
+							// which we cannot rule out - except when the block is the function's single fall-through exit
+							if len(f.Blocks) > 1 {
+								influence = shortFn(f) + " returns under a condition read from it (" + instrPos(c.Prog, x) + ")"
+							}
 						}
 					case ssa.CallInstruction:
-						cal := flow.StaticCallee(x.Common())
-						if cal == nil || cal.Signature.Recv() == nil || !flow.NamedIs(cal.Signature.Recv().Type(), "sync", "Map") {
+						if _, isDefer := ins.(*ssa.Defer); isDefer {
 							continue
 						}
-						switch cal.Name() {
-						case "Store", "LoadOrStore", "Swap", "CompareAndSwap", "Delete", "LoadAndDelete", "CompareAndDelete", "Clear":
-							where := "a local"
-							if len(x.Common().Args) > 0 {
-								if isGlobalBased(x.Common().Args[0]) {
-									where = "a package-level"
-								} else if fromRecv(x.Common().Args[0]) {
-									where = "a receiver-field"
+						argDep := false
+						for _, a := range x.Common().Args {
+							if dep[a] {
+								argDep = true
+							}
+						}
+						if (controlled || argDep) && !isLogCall(x) {
+							// calls on the state itself (Store/Load/...) are bookkeeping
+							cal := flow.StaticCallee(x.Common())
+							if cal != nil && cal.Signature.Recv() != nil && flow.NamedIs(cal.Signature.Recv().Type(), "sync", "Map") {
+								continue
+							}
+							if bi, isB := x.Common().Value.(*ssa.Builtin); isB && (bi.Name() == "len" || bi.Name() == "delete") {
+								continue
+							}
+							influence = shortFn(f) + " calls " + flow.CalleeName(x.Common()) + " depending on it (" + instrPos(c.Prog, x) + ")"
+						}
+					case *ssa.Store, *ssa.MapUpdate, *ssa.Send:
+						if controlled {
+							// writes under a state-dependent condition other than to the state itself
+							var addr ssa.Value
+							switch y := ins.(type) {
+							case *ssa.Store:
+								addr = y.Addr
+							case *ssa.MapUpdate:
+								addr = y.Map
+							}
+							if addr != nil && (rootOf(f, addr) == root || rootOf(f, flow.ResolveLoad(addr)) == root) {
+								continue
+							}
+							if st, isSt := ins.(*ssa.Store); isSt {
+								// stores into locals (spills, variadic argument arrays, literals under construction)
+								a := st.Addr
+								local := false
+								for i := 0; i < 6 && a != nil; i++ {
+									switch y := a.(type) {
+									case *ssa.Alloc:
+										local = true
+										a = nil
+									case *ssa.IndexAddr:
+										a = y.X
+									case *ssa.FieldAddr:
+										a = y.X
+									default:
+										a = nil
+									}
+								}
+								if local {
+									continue
 								}
 							}
-							report1(ins, fmt.Sprintf("%s on %s sync.Map", cal.Name(), where))
+							influence = shortFn(f) + " writes under a condition read from it (" + instrPos(c.Prog, ins) + ")"
 						}
 					}
 				}
 			}
 		}
+		w := writes[root]
+		sort.Strings(w)
+		construct := "no memory between messages: " + root
+		if influence == "" {
+			res.Hold(rule, construct, writePos[root], "written by "+strings.Join(uniq(w), "; ")+"; nothing but logging/metrics depends on what is read back")
+			continue
+		}
+		viol++
+		res.Viol(rule, construct, writePos[root], "state that outlives a message is written ("+strings.Join(uniq(w), "; ")+") and behaviour depends on it: "+influence+" - how a message is treated then depends on the messages seen before it")
 	}
-	if n < 5 {
-		res.Undec(rule, "functions scanned for retained state", "", fmt.Sprintf("%d", n))
+	res.Analysed["stateless_functions"] = len(funcs)
+	if len(funcs) < 5 {
+		res.Undec(rule, "functions scanned for retained state", "", fmt.Sprintf("%d", len(funcs)))
 	}
-	res.Analysed["stateless_functions"] = n
 	if viol == 0 {
-		res.Hold(rule, "no function of "+strings.Join(rels, ", ")+" retains state between messages", "", fmt.Sprintf("%d functions scanned: no store to package-level variables, receiver fields or sync.Maps outside constructors", n))
+		res.Hold(rule, "no function of "+strings.Join(rels, ", ")+" lets retained state decide what happens to a message", "", fmt.Sprintf("%d functions scanned, %d written state objects examined", len(funcs), len(roots)))
 	}
-	_ = types.Typ
+}
+
+func uniq(in []string) []string {
+	var out []string
+	seen := map[string]bool{}
+	for _, s := range in {
+		if !seen[s] {
+			seen[s] = true
+			out = append(out, s)
+		}
+	}
+	return out
 }
